@@ -82,10 +82,11 @@ def build_scaled(e, k):
 FAR = [1000000.0, 2000000.0, -500000.0]
 
 
-def build_far(e):
-    """the same expression moved far away from the origin (every position by FAR: quarter units stay exactly representable in single precision); only for expressions without polygons, meshes,
-    translations and rotations (their vectors / pivots would need the same treatment)"""
-    OFFSET[0] = FAR
+def build_far(e, far=None):
+    """the same expression moved far away from the origin: every position (corners, centres, interval ends, polygon / mesh vertices,
+    pivots of rotations) by `far` (default FAR: quarter units stay exactly representable in single precision); translation vectors
+    and radii are not positions"""
+    OFFSET[0] = list(far or FAR)
     try:
         return build(e)
     finally:
@@ -119,7 +120,8 @@ def build(e):
     if k == "poly":         # constant rings of quarter-unit vertices: ring 1 exterior, the others holes
         from torchphysics.problem.domains.domain2D.shapely_polygon import ShapelyPolygon      # not re-exported (optional dependency)
         K = SCALE[0]
-        rings = [[(x / 4.0 * K, y / 4.0 * K) for x, y in r] for r in e["rings"]]
+        ox, oy = (OFFSET[0][0], OFFSET[0][1]) if OFFSET[0] else (0.0, 0.0)
+        rings = [[(x / 4.0 * K + ox, y / 4.0 * K + oy) for x, y in r] for r in e["rings"]]
         if len(rings) == 1:
             return ShapelyPolygon(space_of(e["v"]), vertices=[list(p) for p in rings[0]])
         import shapely.geometry as s_geo
@@ -127,7 +129,8 @@ def build(e):
     if k == "mesh":         # constant vertices (quarter units) and surface triangles (1-based indices) as the term gives them
         K = SCALE[0]
         from torchphysics.problem.domains.domain3D.trimesh_polyhedron import TrimeshPolyhedron
-        return TrimeshPolyhedron(space_of(e["v"]), vertices=[[c / 4.0 * K for c in v] for v in e["vs"]],
+        o3 = OFFSET[0] if OFFSET[0] else [0.0, 0.0, 0.0]
+        return TrimeshPolyhedron(space_of(e["v"]), vertices=[[c / 4.0 * K + o3[i] for i, c in enumerate(v)] for v in e["vs"]],
                                    faces=[[i - 1 for i in f] for f in e["fs"]], tol=1.0e-06 * K)     # (the boundary tolerance is the user's: scaled with the mesh)
     if k == "union":
         if e.get("disjoint"):
@@ -149,14 +152,14 @@ def build(e):
         import math
         ns = {}
         exec("def ang(%s):\n    return %r * %s\n" % (e["an"], math.pi / 2 / SCALE[0], e["an"]), ns)
-        return D.Rotate.from_angles(build(e["d"]), ns["ang"], rotate_around=mk_fun(e["p"]))
+        return D.Rotate.from_angles(build(e["d"]), ns["ang"], rotate_around=mk_pos(e["p"]))
     if k == "rot" and e["m"] in ROT3:
         M, h = ROT3[e["m"]]
-        return D.Rotate(build(e["d"]), torch.tensor([[[x / h for x in row] for row in M]]), mk_fun(e["p"]))
+        return D.Rotate(build(e["d"]), torch.tensor([[[x / h for x in row] for row in M]]), mk_pos(e["p"]))
     if k == "rot":
         c, s, h = ROT[e["m"]]
         m = torch.tensor([[[c / h, -s / h], [s / h, c / h]]])
-        return D.Rotate(build(e["d"]), m, mk_fun(e["p"]))
+        return D.Rotate(build(e["d"]), m, mk_pos(e["p"]))
     if k == "bd":
         return build(e["d"]).boundary
     if k == "bdl":
